@@ -2,6 +2,7 @@ package sym
 
 import (
 	"fmt"
+	"os"
 	"go/token"
 	"go/types"
 	"strings"
@@ -808,6 +809,9 @@ func (e *Engine) oblige(st *State, fr *Frame, kind, label string, goal *smt.Term
 }
 
 func (e *Engine) obligeNamed(st *State, fr *Frame, kind, label string, goal *smt.Term, pos string, tags []string, inFn string) {
+	if os.Getenv("GVC_DEBUG") != "" && strings.Contains(kind+"/"+label, os.Getenv("GVC_DEBUG")) {
+		fmt.Fprintf(os.Stderr, "OBLIGE %s/%s: %s\n", kind, label, e.C.Show(goal))
+	}
 	if goal.IsTrue() {
 		e.Stats["obligations-trivial"]++
 		return
